@@ -13,4 +13,48 @@ theorem window_ok_of_valid (t0 : Int) (es : List Ev) (hv : Valid (fresh t0) t0 e
     Spec.Flood.windowOk (es.map fun e => (e.chars, e.w)) = true := by
   exact Go.Extra.windowOk_of_inv _ _ (inv_fresh t0) es hv
 
+/-! ### "Flood toggled on and off" -/
+
+/-- A run in which the application flips `cfg.Flood` between lines (`true` = written with Flood set): such a line is
+neither charged nor delayed - `rateLimit` is not called, the state is untouched - and is written no earlier than the line
+before it; a protected line is as in `Valid`. -/
+def ValidT : St → Int → List (Bool × Ev) → Prop
+  | _, _, [] => True
+  | s, pw, (true, e) :: es => pw ≤ e.w ∧ ValidT s e.w es
+  | s, pw, (false, e) :: es => pw ≤ e.t ∧ e.t ≤ e.l ∧ e.l + delay s e ≤ e.w ∧ ValidT (next s e) e.w es
+
+/-- the lines written with protection on, in order -/
+def protectedOf (es : List (Bool × Ev)) : List Ev := (es.filter fun p => !p.1).map (·.2)
+
+theorem valid_mono_pw (s : St) (pw pw' : Int) (es : List Ev) (h : pw' ≤ pw) (hv : Valid s pw es) : Valid s pw' es := by
+  cases es with
+  | nil => trivial
+  | cons e es => exact ⟨Int.le_trans h hv.1, hv.2⟩
+
+/-- C10, the toggling clause: whatever the application does with the switch, the protected lines alone form a valid run
+of the rate limiter - the unprotected lines in between change nothing but the clock. So every theorem about valid runs
+(the penalty invariant, `window_bound`, `window_ok_of_valid`) holds of the protected subsequence of every toggled run. -/
+theorem toggled_protected_valid (s : St) (pw : Int) (es : List (Bool × Ev)) (hv : ValidT s pw es) :
+    Valid s pw (protectedOf es) := by
+  induction es generalizing s pw with
+  | nil => trivial
+  | cons p es ih =>
+    obtain ⟨f, e⟩ := p
+    cases f with
+    | true =>
+      have h := ih s e.w hv.2
+      simpa [protectedOf] using valid_mono_pw s e.w pw _ hv.1 h
+    | false =>
+      obtain ⟨h1, h2, h3, h4⟩ := hv
+      have h := ih (next s e) e.w h4
+      simpa [protectedOf, Valid] using And.intro h1 (And.intro h2 (And.intro h3 h))
+
+/-- the window predicate the driver evaluates holds of the protected lines of every toggled run of a fresh client -/
+theorem window_ok_toggled (t0 : Int) (es : List (Bool × Ev)) (hv : ValidT (fresh t0) t0 es) :
+    Spec.Flood.windowOk ((protectedOf es).map fun e => (e.chars, e.w)) = true :=
+  window_ok_of_valid t0 _ (toggled_protected_valid _ _ _ hv)
+
+/-- and a line written with Flood set is never held back -/
+theorem toggled_unprotected_not_delayed (s : St) (e : Ev) : (writeStep true s e).2 = 0 := rfl
+
 end Props.C10
